@@ -440,9 +440,18 @@ func equalMethodInputParam(typ *types.Named) *types.Type {
 			continue
 		}
 		inputType := sig.Params().At(0).Type()
+		if !derive.TakesOther(inputType, typ) {
+			// not an equality of the type with itself: Equal(name string) bool
+			continue
+		}
 		return &inputType
 	}
 	return nil
+}
+
+func isInterface(typ types.Type) bool {
+	_, ok := typ.Underlying().(*types.Interface)
+	return ok
 }
 
 // equalMethodOnValue returns whether the Equal method of the type is declared on the value and not on the pointer.
@@ -464,7 +473,7 @@ func (g *gen) field(thisField, thatField string, fieldType types.Type) (string, 
 			ityp := *inputType
 			if _, ok := ityp.(*types.Pointer); ok {
 				return fmt.Sprintf("%s.Equal(&%s)", wrap(thisField), thatField), nil
-			} else if _, ok := ityp.(*types.Interface); ok {
+			} else if isInterface(ityp) {
 				return fmt.Sprintf("%s.Equal(&%s)", wrap(thisField), thatField), nil
 			} else {
 				return fmt.Sprintf("%s.Equal(%s)", wrap(thisField), thatField), nil
@@ -484,8 +493,7 @@ func (g *gen) field(thisField, thatField string, fieldType types.Type) (string, 
 			if inputType != nil {
 				ityp := *inputType
 				_, isPointer := ityp.(*types.Pointer)
-				_, isInterface := ityp.(*types.Interface)
-				if isPointer || isInterface {
+				if isPointer || isInterface(ityp) {
 					if equalMethodOnValue(named) {
 						// the method is called on what the pointer points to: a nil pointer is not handed to it
 						return fmt.Sprintf("((%[1]s == nil && %[2]s == nil) || (%[1]s != nil && %[2]s != nil && %[3]s.Equal(%[2]s)))", thisField, thatField, wrap(thisField)), nil
